@@ -169,6 +169,11 @@ def _sigma(T, cfg):
                 [Fraction(1, 4), Fraction(0), Fraction(1, 2), Fraction(1)]]
         M = [row[:n] for row in base[:n]]
         return np.array([[float(x) for x in row] for row in M]), M
+    if kind == 'ceqdiag':
+        # SPD matrix with a CONSTANT diagonal and non-zero covariances (AR(1), rho = 1/2): equal variances do not
+        # make the identity fast path valid
+        M = [[Fraction(1, 2 ** abs(i - j)) for j in range(n)] for i in range(n)]
+        return np.array([[float(x) for x in row] for row in M]), M
     raise ValueError(kind)
 
 
@@ -352,6 +357,7 @@ def configs(tier):
                     if n == 4 and (n1, n2) != (1, 1) and quick:
                         continue
                     out.append(dict(case='ident', method=method, n_cond=n, n1=n1, n2=n2, in1=i1, in2=i2, sigma=sig))
+            out.append(dict(case='ident', method=method, n_cond=n, n1=1, n2=1, in1='rdms', in2='rdms', sigma='ceqdiag'))
             out.append(dict(case='sigma_forms', method=method, n_cond=n, n1=1, n2=2))
             out.append(dict(case='props', method=method, n_cond=n, n1=2 if n == 3 else 1, n2=2 if n == 3 else 1,
                             perms=list(itertools.permutations(range(n)))[::(1 if n == 3 else 5)]))
